@@ -205,31 +205,56 @@ def replay(run, pid, behs, seed, pipeline_every=0):
 
 
 def big_file_case(run):
-    """A module larger than any plausible read buffer, with multi-byte characters at every offset class: each doc
-    line must arrive verbatim (C01: non-ASCII characters unchanged, whatever their byte offset in the file)."""
+    """Modules larger than any plausible read buffer, filled with 2-, 3- and 4-byte characters, in four byte
+    alignments: every doc line must arrive verbatim (C01: non-ASCII characters unchanged, whatever their byte offset)."""
     import agg
     from rstparse import Page
-    parts = []
-    want = {}
-    for i in range(160):
-        line = "é" * (7 + i % 5) + " w%d " % i + "漢" * (3 + i % 7) + "🙂" + "ß" * (i % 3)
-        want["big_%d(" % i] = line
-        parts.append("#[[[\n# %s\n#]]\nfunction(big_%d a)\nendfunction()\n" % (line, i))
-        if i % 3 == 0:
-            parts.append("# " + "x" * (i % 17) + "\n")      # shifts the byte offsets irregularly
-    src = "".join(parts)
-    status, text, _, _ = agg.run_real(src, agg.make_settings())
-    run.count("bigfile")
-    case = {"source_bytes": len(src.encode("utf-8")), "features": {"big_file": True, "nonascii": True}}
-    if status != "ok":
-        run.violation(case, "page", text, "the pipeline raised on a large UTF-8 file")
-        return
-    page = Page(text)
-    bad = []
-    for nd in page.nodes:
-        for prefix, line in want.items():
-            if nd.name == "function" and nd.arg.startswith(prefix):
-                if line not in nd.text_lines:
-                    bad.append([prefix, line, nd.text_lines[:2]])
-    if bad or sum(1 for nd in page.nodes if nd.name == "function") != 160:
-        run.violation(case, "every doc line verbatim", bad[:3], "doc text of a large UTF-8 file is not reproduced verbatim")
+    for shift in range(4):
+        parts = ["#" + "x" * shift + "\n"]
+        want = {}
+        for i in range(60):
+            ch = ["🙂", "漢", "é", "𝔘"][i % 4]
+            line = "w%d " % i + ch * (330 + i)        # about 1 KiB of multi-byte characters per line
+            want["big_%d(" % i] = line
+            parts.append("#[[[\n# %s\n#]]\nfunction(big_%d a)\nendfunction()\n" % (line, i))
+        src = "".join(parts)
+        status, text, _, _ = agg.run_real(src, agg.make_settings())
+        run.count("bigfile:%d" % shift)
+        case = {"source_bytes": len(src.encode("utf-8")), "byte_shift": shift, "features": {"big_file": True, "nonascii": True}}
+        if status != "ok":
+            run.violation(case, "page", text, "the pipeline raised on a large UTF-8 file")
+            continue
+        page = Page(text)
+        bad = []
+        for nd in page.nodes:
+            for prefix, line in want.items():
+                if nd.name == "function" and nd.arg.startswith(prefix) and line not in nd.text_lines:
+                    bad.append([prefix, line[:12] + "...", [t[:12] + "..." for t in nd.text_lines[:1]]])
+        if bad or sum(1 for nd in page.nodes if nd.name == "function") != 60:
+            run.violation(case, "every doc line verbatim", bad[:3], "doc text of a large UTF-8 file is not reproduced verbatim")
+
+
+def twin_cases(run):
+    """Two definitions of one name (same spelling, or differing only in letter case; e.g. one per if()/else() branch),
+    each with its own doccomment: both texts must reach the page, each under its own directive (C01: no doccomment
+    line is dropped or attributed to another item)."""
+    import agg
+    from rstparse import Page
+    shapes = [("function", "helper", "function", "helper"), ("macro", "Helper", "function", "HELPER"),
+              ("function", "setup", "macro", "setup"), ("macro", "m_x", "macro", "M_X")]
+    for n, (k1, n1, k2, n2) in enumerate(shapes):
+        for wrap in (False, True):
+            body = ("#[[[\n# first twin w%d\n# more of the first\n#]]\n%s(%s a)\nend%s()\n" % (n, k1, n1, k1),
+                    "#[[[\n# second twin w%d\n# more of the second\n#]]\n%s(%s b c)\nend%s()\n" % (n, k2, n2, k2))
+            src = ("if(WIN32)\n%selse()\n%sendif()\n" % body) if wrap else body[0] + body[1]
+            status, text, _, _ = agg.run_real(src, agg.make_settings())
+            run.count("twin:%d:%s" % (n, wrap))
+            case = {"source": src, "features": {"same_name_twice": True}}
+            if status != "ok":
+                run.violation(case, "page", text, "the pipeline raised on two definitions of one name")
+                continue
+            nodes = [nd for nd in Page(text).nodes if nd.name == "function"]
+            docs = [[t for t in nd.text_lines if t.strip()] for nd in nodes]
+            want = [["first twin w%d" % n, "more of the first"], ["second twin w%d" % n, "more of the second"]]
+            if docs != want:
+                run.violation(case, want, docs, "a doccomment of one of two same-named definitions is dropped, duplicated or misattributed")
